@@ -254,9 +254,9 @@ func parseExpr(s *sexp) *Expr {
 	case "fld", "pfld":
 		need(a, 2, op)
 		return &Expr{Op: op, Args: []*Expr{parseExpr(a[0])}, N: a[1].num()}
-	case "new":
+	case "new", "nil":
 		need(a, 1, op)
-		return &Expr{Op: "new", Ty: parseType(a[0])}
+		return &Expr{Op: op, Ty: parseType(a[0])}
 	case "slit", "sllit":
 		if len(a) < 1 {
 			bad("%s operands", op)
@@ -361,6 +361,9 @@ func parseStmt(s *sexp) *Stmt {
 		need(a, 1, op)
 		return &Stmt{Op: op, E: parseExpr(a[0])}
 	case "print", "ret", "defer":
+		return &Stmt{Op: op, Es: parseExprs(a)}
+	case "delete":
+		need(a, 2, op)
 		return &Stmt{Op: op, Es: parseExprs(a)}
 	case "if":
 		need(a, 4, op)
